@@ -184,22 +184,25 @@ def shiftLoop (c n : Nat) : Nat → Nat → List Nat → List Nat
     let a := a.set (c + n - i) 0                     -- colonp[n - i] = 0
     shiftLoop c n fuel (i + 1) a
 
-/-- lines 272-297 -/
+/-- the two bytes of a 16-bit group, network order:
+    `*tp++ = (unsigned char) (val >> 8) & 0xff; *tp++ = (unsigned char) val & 0xff;` -/
+def wbytes (w : Nat) : List Nat := [w / 256 % 256, w % 256]
+
+/-- lines 278-297: expand "::" (shift by hand), then `tp != endp` check -/
+def pton6Tail (tp : List Nat) (colonp : Option Nat) : Option (List Nat) :=
+  match colonp with
+  | some c =>
+    if tp.length = 16 then none
+    else
+      let n := tp.length - c
+      some (shiftLoop c n n 1 (tp ++ List.replicate (16 - tp.length) 0))
+  | none => if tp.length ≠ 16 then none else some tp
+
+/-- lines 272-277, then the tail -/
 def pton6Finish (seen val : Nat) (tp : List Nat) (colonp : Option Nat) : Option (List Nat) :=
-  let tp? : Option (List Nat) :=
-    if seen ≠ 0 then
-      if tp.length + 2 > 16 then none else some (tp ++ [val / 256 % 256, val % 256])
-    else some tp
-  match tp? with
-  | none => none
-  | some tp =>
-    match colonp with
-    | some c =>
-      if tp.length = 16 then none
-      else
-        let n := tp.length - c
-        some (shiftLoop c n n 1 (tp ++ List.replicate (16 - tp.length) 0))
-    | none => if tp.length ≠ 16 then none else some tp
+  if seen ≠ 0 then
+    if tp.length + 2 > 16 then none else pton6Tail (tp ++ wbytes val) colonp
+  else pton6Tail tp colonp
 
 /-- the `while` loop, lines 232-271.  `curtok` is the text from the current token on. -/
 def pton6Loop : List Nat → List Nat → Nat → Nat → List Nat → Option Nat → Option (List Nat)
@@ -215,7 +218,7 @@ def pton6Loop : List Nat → List Nat → Nat → Nat → List Nat → Option Na
           if colonp.isSome then none else pton6Loop rest rest 0 val tp (some tp.length)
         else if rest = [] then none
         else if tp.length + 2 > 16 then none
-        else pton6Loop rest rest 0 0 (tp ++ [val / 256 % 256, val % 256]) colonp
+        else pton6Loop rest rest 0 0 (tp ++ wbytes val) colonp
       else if ch = 46 ∧ tp.length + 4 ≤ 16 then
         match pton4 curtok with
         | some v4 => pton6Finish 0 val (tp ++ v4) colonp    -- break
@@ -277,7 +280,7 @@ def uvIpName (family : Nat) (addr dst : List Nat) (size : Nat) : Int × List Nat
       hexseq    = h16 *( ":" h16 )
       groupseq  = hexseq / [ hexseq ":" ] quad        ; a quad may only be the last piece
       ipv6      = groupseq                            ; exactly 16 bytes
-                / [ hexseq ] "::" [ groupseq ]        ; at most 14 bytes written out, zeros in between
+                / [ hexseq ] "::" [ groupseq ]        ; fewer than 16 bytes written out, zeros in between
 -/
 
 def decVal (t : List Nat) : Nat := t.foldl (fun a c => a * 10 + (c - 48)) 0
@@ -296,9 +299,6 @@ def hexFold (t : List Nat) : Nat := t.foldl (fun a c => a * 16 + (hexVal c).getD
 def IsH16 (t : List Nat) (w : Nat) : Prop :=
   t ≠ [] ∧ t.length ≤ 4 ∧ (∀ c ∈ t, (hexVal c).isSome) ∧ hexFold t = w
 
-/-- the two bytes of a 16-bit group, network order -/
-def wbytes (w : Nat) : List Nat := [w / 256 % 256, w % 256]
-
 /-- non-empty `h16 *( ":" h16 )` with its bytes -/
 inductive HexSeq : List Nat → List Nat → Prop
   | one {t w} : IsH16 t w → HexSeq t (wbytes w)
@@ -314,7 +314,7 @@ inductive Ipv6Text : List Nat → List Nat → Prop
   | full {s bs} : GroupSeq s bs → bs.length = 16 → Ipv6Text s bs
   | compressed {l lb r rb} :
       (l = [] ∧ lb = [] ∨ HexSeq l lb) → (r = [] ∧ rb = [] ∨ GroupSeq r rb) →
-      lb.length + rb.length ≤ 14 →
+      lb.length + rb.length < 16 →
       Ipv6Text (l ++ 58 :: 58 :: r) (lb ++ List.replicate (16 - (lb.length + rb.length)) 0 ++ rb)
 
 end UvModel.Inet
